@@ -38,7 +38,7 @@ impl Part for WirePart {
         "one primary + two replicas (mock backends on 127.0.0.1/2/3), read/write splitting on, default_role × primary_reads_enabled × load balancing mode × replicas up/down; sessions of 1..8 steps (class-labelled messages as simple Query or Parse/Bind/Execute/Sync, SET SERVER ROLE, SET PRIMARY READS); oracle: the role of the backend whose log shows the tagged statement satisfies the label model; with 'replica' pinned and both replicas down the client gets an error and the primary receives nothing. Non-trivial = a non-read class other than plain DML, or a message after an override".into()
     }
     fn cases(&self, tier: Tier) -> u64 {
-        tier.pick(300, 8_000)
+        tier.pick(1_200, 16_000)
     }
     fn strategy(&self, _tier: Tier) -> BoxedStrategy<Case> {
         (0u8..3, any::<bool>(), prop::bool::weighted(0.2), any::<bool>(), prop::collection::vec(step_strategy(), 1..9))
